@@ -200,6 +200,7 @@ type seqRun struct {
 	A, B    *subscriber
 	aborted bool
 	cleaned bool
+	pending []pendingMissing
 }
 
 var idCounter int64 // unique payload ids within a child process
@@ -733,11 +734,15 @@ func grep(text string, subs ...string) []string {
 
 var probeCache = map[string]*Result{}
 
-// reportMissing turns "x did not get required messages" into violations,
-// attributing a stall to the malformed kind that reproduces it on its own.
+// reportMissing records "x did not get required messages"; attribute() turns
+// the records into violations once the sequence has been torn down.
 func (q *seqRun) reportMissing(x *subscriber, status, dump string) {
 	miss := q.missing(x)
 	if len(miss) == 0 {
+		return
+	}
+	if q.spec.Probe != "" {
+		q.res.Stalled = true
 		return
 	}
 	first := miss[0]
@@ -761,45 +766,78 @@ func (q *seqRun) reportMissing(x *subscriber, status, dump string) {
 	if prev != nil {
 		w["last_malformed_before"] = map[string]interface{}{"step": prev.Step, "kind": prev.Sub, "body_hex": hexCap(prev.Raw)}
 	}
-	if q.spec.Probe != "" {
-		q.res.Stalled = true
-		return
-	}
-	var culprits []string
-	probes := map[string]string{}
 	var ks []string
 	for k := range kinds {
 		ks = append(ks, k)
 	}
 	sort.Strings(ks)
-	for _, k := range ks {
-		ps := *q.spec
-		ps.Probe, ps.Kinds, ps.Foreign, ps.Burst, ps.K, ps.DelayUs, ps.ViaInject = k, []string{k}, false, 0, 0, 0, false
-		key := fmt.Sprintf("%s|%s|%d|%s|%s|%s", ps.Broker, ps.Factory, ps.Workers, ps.Proto, ps.Op, k)
-		pr, ok := probeCache[key]
-		if !ok {
-			pr = runSeq(q.bus, &ps)
-			probeCache[key] = pr
-			q.count("attribution_probes", 1)
-		}
-		switch {
-		case pr.Stalled:
-			culprits = append(culprits, k)
-			probes[k] = "later valid messages not delivered"
-		case len(pr.Inconclusive) > 0:
-			probes[k] = "inconclusive"
-		default:
-			probes[k] = "delivered"
-		}
+	q.pending = append(q.pending, pendingMissing{x: x, status: status, witness: w, kinds: ks, missing: len(miss), required: len(q.required(x))})
+}
+
+type pendingMissing struct {
+	x                 *subscriber
+	status            string
+	witness           map[string]interface{}
+	kinds             []string
+	missing, required int
+}
+
+func (q *seqRun) probe(kind string) *Result {
+	ps := *q.spec
+	ps.Probe, ps.Kinds, ps.Foreign, ps.Burst, ps.K, ps.DelayUs, ps.ViaInject = kind, []string{kind}, false, 0, 0, 0, false
+	if kind == "control" {
+		ps.Kinds = nil
 	}
-	w["probes"] = probes
-	w["probe_shape"] = "V V <kind>x8 V V V S on a fresh subscriber of the same configuration"
-	if len(culprits) == 0 {
-		q.vio("not-delivered:"+status, fmt.Sprintf("subscriber %s never got %d of %d valid messages published on its topic while it was subscribed (%s; no single malformed kind reproduces it)", x.name, len(miss), len(q.required(x)), status), w)
-		return
+	key := fmt.Sprintf("%s|%s|%d|%s|%s|%s|%s", ps.Broker, ps.Factory, ps.Workers, ps.Proto, ps.Op, ps.StompPrefix, kind)
+	pr, ok := probeCache[key]
+	if !ok {
+		pr = runSeq(q.bus, &ps)
+		probeCache[key] = pr
+		q.count("attribution_probes", 1)
 	}
-	for _, k := range culprits {
-		q.vio("messages-after-"+k+"-not-delivered", fmt.Sprintf("after a %s message on its topic, subscriber %s (%s, %d worker(s)) never got the valid messages that followed (%d of %d missing; %s)", k, x.name, q.spec.Factory, q.spec.Workers, len(miss), len(q.required(x)), status), w)
+	return pr
+}
+
+// attribute runs after the sequence's own connections are closed (the probes
+// use the same topic): a stall is attributed to the malformed kind that
+// reproduces it on its own on fresh subscribers; if even a sequence of valid
+// messages alone is not delivered there is nothing to attribute.
+func (q *seqRun) attribute() {
+	for _, p := range q.pending {
+		w, x := p.witness, p.x
+		if q.probe("control").Stalled {
+			w["control_probe"] = "V V V V V S (valid messages only) on fresh subscribers of the same configuration is not delivered either"
+			q.vio("valid-messages-not-delivered", fmt.Sprintf("subscriber %s never got %d of %d valid messages published on its topic while it was subscribed (%s); valid messages alone are not delivered", x.name, p.missing, p.required, p.status), w)
+			continue
+		}
+		var culprits []string
+		probes := map[string]string{}
+		for _, k := range p.kinds {
+			pr := q.probe(k)
+			switch {
+			case pr.Stalled:
+				culprits = append(culprits, k)
+				probes[k] = "later valid messages not delivered"
+			case len(pr.Inconclusive) > 0:
+				probes[k] = "inconclusive"
+			default:
+				probes[k] = "delivered"
+			}
+		}
+		w["probes"] = probes
+		defs := map[string]string{}
+		for _, k := range p.kinds {
+			defs[k] = kindDoc[k]
+		}
+		w["kind_definitions"] = defs
+		w["probe_shape"] = "V V <kind>x8 V V V S on fresh subscribers of the same configuration"
+		if len(culprits) == 0 {
+			q.vio("not-delivered:"+p.status, fmt.Sprintf("subscriber %s never got %d of %d valid messages published on its topic while it was subscribed (%s; no single malformed kind reproduces it)", x.name, p.missing, p.required, p.status), w)
+			continue
+		}
+		for _, k := range culprits {
+			q.vio("messages-after-"+k+"-not-delivered", fmt.Sprintf("after a %s message on its topic, subscriber %s (%s, %d worker(s)) never got the valid messages that followed (%d of %d missing; %s)", k, x.name, q.spec.Factory, q.spec.Workers, p.missing, p.required, p.status), w)
+		}
 	}
 }
 
@@ -942,12 +980,18 @@ func runSeq(b *bus, s *Spec) *Result {
 	// the logs are judged after everything has been torn down, so that a
 	// subscriber that kept consuming after Unsubscribe had time to show it
 	q.cleanup()
+	if s.Probe == "" && q.A != nil && q.A.unsub && q.A.dumpOK {
+		// diagnostic only (the property does not speak about goroutines):
+		// worker goroutines of A that outlive Unsubscribe and the teardown
+		q.count("diag_A_worker_goroutines_alive_after_teardown", len(workersOf(parseDump(rawDump()), q.A.gid, q.A.workerFn)))
+	}
 	if s.Probe == "" {
 		for _, x := range []*subscriber{q.A, q.B} {
 			if x != nil {
 				q.verify(x)
 			}
 		}
+		q.attribute()
 	}
 	return q.res
 }
@@ -1004,7 +1048,7 @@ func (q *seqRun) run() {
 		for i := 0; i < 2 && err == nil; i++ {
 			_, err = q.publishOnTopic("valid", 1)
 		}
-		for i := 0; i < 8 && err == nil; i++ {
+		for i := 0; i < 8 && err == nil && s.Probe != "control"; i++ {
 			err = q.publishMalformed(s.Probe, 1)
 		}
 		for i := 0; i < 3 && err == nil; i++ {
@@ -1034,6 +1078,7 @@ func (q *seqRun) run() {
 			} else {
 				q.reportMissing(x, st, dump)
 				q.aborted = true
+				break
 			}
 		}
 	}
